@@ -179,16 +179,32 @@ def signer_init_live(mod):
 
 
 # ---------------------------------------------------------------------------- SoftwareSigner
-SS_METHODS = ["xpub", "sign_psbt", "display_address", "sign_message",
-              "sign_ecdsa", "sign_schnorr", "sign_schnorr_script_path"]
+# public names of SoftwareSigner that answer no question about a held key while open/closed matters:
+# the constructor, the state itself, and the three read-only descriptions of the signer
+SS_EXEMPT = {"from_accounts", "close", "xkey", "is_watch_only", "master_fingerprint", "capabilities"}
+
+
+def software_signer_methods():
+    """every public name of the class, enumerated from the class itself: a new one must be classified."""
+    names = [n for n in vars(psbt_signer.SoftwareSigner) if not n.startswith("_")]
+    methods = [n for n in names if n not in SS_EXEMPT]
+    for n in methods:
+        if not inspect.isfunction(vars(psbt_signer.SoftwareSigner)[n]):
+            raise Unrecognised(f"SoftwareSigner.{n}: a public name that is neither a plain method nor classified exempt")
+    return methods
 
 
 def software_signer_guards():
     rows = []
-    for name in SS_METHODS:
+    for name in software_signer_methods():
         body, _ = _body(getattr(psbt_signer.SoftwareSigner, name))
         rows.append((name, bool(body) and _u(body[0]) == "self._assert_open()"))
     return rows
+
+
+def software_signer_signing():
+    """the methods that produce a signature: every public method named sign*."""
+    return [n for n in software_signer_methods() if n.startswith("sign")]
 
 
 def software_signer_facts():
@@ -286,7 +302,10 @@ def curve_eq_key(cls, base=None):
 def curve_eq_hash_use_key():
     eq, _ = _body(curve_group_mod.CurveGroup.__eq__)
     hs, _ = _body(curve_group_mod.CurveGroup.__hash__)
-    eq_ok = _u(eq[-1]) == "return self._eq_key() == other._eq_key()"
+    eq_ok = [_u(s) for s in eq] == [
+        "if self is other:\n    return True",
+        "if not isinstance(other, CurveGroup) or type(self) is not type(other):\n    return NotImplemented",
+        "return self._eq_key() == other._eq_key()"]   # the whole body: no earlier shortcut can answer for the key
     hash_ok = [_u(s) for s in hs] == ["return hash(self._eq_key())"]
     own = all(n not in vars(curve_mod.Curve) for n in ("__eq__", "__hash__"))   # Curve inherits both
     return eq_ok and own, hash_ok and own
@@ -317,6 +336,8 @@ def constants():
     rows = software_signer_guards()
     txt += "/-- `SoftwareSigner`: (public method, whether its first statement is `self._assert_open()`) -/\n"
     txt += "def softwareSignerGuards : List (String × Bool) := [" + ", ".join(f'("{n}", {b(g)})' for n, g in rows) + "]\n"
+    txt += "/-- the public methods of `SoftwareSigner` that produce a signature (every public `sign*`), enumerated from the class -/\n"
+    txt += "def softwareSignerSigning : List String := [" + ", ".join(f'"{n}"' for n in software_signer_signing()) + "]\n"
     cs, ao, io = software_signer_facts()
     txt += f"def softwareSignerCloseSets : Bool := {b(cs)}\n"
     txt += f"def softwareSignerAssertOpenRaises : Bool := {b(ao)}\n"
